@@ -66,7 +66,10 @@ Centre2(u) == << 2*L*(Min(Rows(u)) + Max(Rows(u)) + 1), 2*L*(Min(Cols(u)) + Max(
 Dist4(c, q, s, ctr) == (2*SubC(c[1], q[1], s) - ctr[1]) * (2*SubC(c[1], q[1], s) - ctr[1])
                      + (2*SubC(c[2], q[2], s) - ctr[2]) * (2*SubC(c[2], q[2], s) - ctr[2])
 SubCells(s) == (0 .. s-1) \X (0 .. s-1)
-Best(c, s, ctr) == { q \in SubCells(s) : \A o \in SubCells(s) : Dist4(c, q, s, ctr) >= Dist4(c, o, s, ctr) }
+\* the set of farthest sub-pixels (arg max; any member is a valid answer)
+Best(c, s, ctr) == LET d == [q \in SubCells(s) |-> Dist4(c, q, s, ctr)]
+                       m == Max({ d[q] : q \in SubCells(s) })
+                   IN { q \in SubCells(s) : d[q] = m }
 
 \* per-axis formulation (the maximiser of a sum of two independent terms)
 BestAxis(i, s, c2) == { a \in 0 .. s-1 : \A o \in 0 .. s-1 :
